@@ -11,6 +11,7 @@ import (
 	"sync"
 	"sync/atomic"
 	"testing"
+	"testing/synctest"
 
 	"pgregory.net/rapid"
 
@@ -444,9 +445,25 @@ func bfsOracle(c bfsCase) (evid.Info, error) {
 		retErr   error
 		finished bool
 	)
+	// The caller's context outlives the call: it is only cancelled after the bubble has ended (unless cancelling it is
+	// the injected fault). A goroutine of the traversal that waits for the CALLER's context instead of the traversal's
+	// own is then still blocked when the bubble's root returns, which the bubble reports.
+	leftBehind, leftStacks := 0, ""
 	body := func() {
 		ctx, cancel := context.WithCancel(context.Background())
 		defer cancel()
+		// The caller's context outlives the call. Once BreadthFirst has returned and everything it started has come
+		// to rest, no goroutine may be left: one that waits for the CALLER's context (instead of the traversal's own)
+		// would only end with the defer above. Counted before the caller's context is cancelled.
+		defer func() {
+			// (every faulted run, and a third of the unfaulted ones: the stack dump is the expensive part of a case)
+			if finished && c.Fault != "cancel" && (c.Fault != "none" || len(c.Children)%3 == 0) {
+				synctest.Wait()
+				if mates := bubbleMates(); len(mates) > 0 {
+					leftBehind, leftStacks = len(mates), strings.Join(mates, "\n--\n")
+				}
+			}
+		}()
 		run.cancel = cancel
 		if c.Fault == "cancel" && c.K == 0 {
 			cancel()
@@ -466,6 +483,9 @@ func bfsOracle(c bfsCase) (evid.Info, error) {
 			what = "BreadthFirst never returns"
 		}
 		return evid.Info{}, fmt.Errorf("%s (workers=%d fault=%s k=%d, %d segments in plan): %w", what, c.Workers, c.Fault, c.K, n, bubbleErr)
+	}
+	if leftBehind > 0 {
+		return evid.Info{}, fmt.Errorf("BreadthFirst returned (%v) and left %d goroutine(s) behind that only end when the CALLER's context is cancelled (workers=%d fault=%s k=%d)\n%s", retErr, leftBehind, c.Workers, c.Fault, c.K, leftStacks)
 	}
 	if run.badSeg != nil {
 		return evid.Info{}, run.badSeg
